@@ -1224,6 +1224,12 @@ class Workspace(AbstractContextManager):
 
         :param entity: The entity to be registered.
         """
+        if not isinstance(entity, EntityType) and self.find_entity(entity.uid) not in (
+            None,
+            entity,
+        ):
+            raise RuntimeError(f"Key '{entity.uid}' already used.")
+
         if isinstance(entity, EntityType):
             weakref_utils.insert_once(self._types, entity.uid, entity)
         elif isinstance(entity, Group):
